@@ -147,12 +147,13 @@ def gen_ok_session(rng, n=None):
                 lines += got
                 continue
         cands = c06.usable_items(have)
-        weights = [4 if any(r.split(":")[0] == "ans" for r in i[1]) else
+        weights = [5 if re.search(r"(map|filter|foldl)\((f1|inc|isbig|addf)\b|= (f1|inc)$", i[0]) else
+                   4 if any(r.split(":")[0] == "ans" for r in i[1]) else
                    (2 if any(p.startswith("ans:q") for p in i[2]) else 1) for i in cands]
         it = rng.choices(cands, weights=weights)[0]
         c06.item_apply(have, it)
         lines.append(it[0])
-    return lines
+    return c06.add_redefinitions(rng, lines)
 
 
 def parse_item(it):
